@@ -17,6 +17,8 @@ func rulesC12(c *Ctx) {
 	c12Unwrap(c)
 	c12Shared(c)
 	c12Builders(c)
+	// "circuit breakers … alike": the breaker's standalone record entry points classify with the same IsFailure
+	c04RecordInternals(c)
 }
 
 // ---- C12.isfailure -------------------------------------------------------------------------------------
